@@ -349,6 +349,13 @@ func c06R2(ic *IC, r *Report) {
 													})
 													if rec && !rep {
 														isolated = true
+														// ... and registered before every invocation of a record: a call made
+														// ahead of the defer statement (a "not panicking" fast path) runs unprotected
+														for _, rc := range callsIn(ic.Info, hd.Body, false, "reflect.Value.Call", "reflect.Value.CallSlice") {
+															if rc.Pos() < ds.Pos() {
+																isolated = false
+															}
+														}
 													}
 												}
 											}
@@ -1016,6 +1023,52 @@ func c06R13(ic *IC, r *Report) {
 				if g.want && (strings.Contains(s, "IsValid()") || strings.Contains(s, "CanInterface()")) {
 					guarded = true
 				}
+			}
+			// a panic with something else than the operand (a substitute such as
+			// *runtime.PanicNilError) is reachable only for an operand that is not valid, i.e. the
+			// nil interface: no condition on the operand's zeroness (round-5 seed: IsZero turned
+			// panic(0), panic(""), panic(false) into a PanicNilError)
+			substitute := !wrapped
+			if substitute {
+				ast.Inspect(c.Args[0], func(q ast.Node) bool {
+					if ce, ok := q.(*ast.CallExpr); ok && isCallTo(info, ce, "reflect.Value.Interface") {
+						substitute = false
+					}
+					if id, ok := q.(*ast.Ident); ok {
+						if v, ok := info.Uses[id].(*types.Var); ok {
+							// a local assigned from <operand>.Interface()
+							ast.Inspect(fl.Body, func(d ast.Node) bool {
+								if as, ok := d.(*ast.AssignStmt); ok && len(as.Lhs) == len(as.Rhs) {
+									for i, l := range as.Lhs {
+										if lid := identOf(l); lid != nil && info.ObjectOf(lid) == v {
+											if len(callsIn(info, as.Rhs[i], true, "reflect.Value.Interface")) > 0 {
+												substitute = false
+											}
+										}
+									}
+								}
+								return true
+							})
+						}
+					}
+					return true
+				})
+			}
+			if substitute {
+				badCond := ""
+				for _, g := range pathGuards(fl.Body, c) {
+					for _, ce := range allCalls(g.cond) {
+						if f, ok := calleeOf(info, ce).(*types.Func); ok && f.Pkg() != nil && f.Pkg().Path() == "reflect" {
+							switch f.Name() {
+							case "IsValid", "CanInterface", "Kind":
+							default:
+								badCond = types.ExprString(g.cond)
+							}
+						}
+					}
+				}
+				r.Check(badCond == "", "R06.13", fmt.Sprintf("_panic/closure#%d/substitute-only-for-the-nil-interface#%d", k+1, n), ic.pos(c.Pos()), "a substitute panic value is raised only for an invalid operand",
+					"the generator of the panic builtin raises "+types.ExprString(c.Args[0])+" instead of the operand's value under the condition "+badCond+": a valid operand that happens to be zero (panic(0), panic(\"\"), panic(false), a zero struct, a typed nil pointer) reaches recover() and Eval's Panic.Value as another value than the one the script raised")
 			}
 			r.Check(!wrapped || guarded, "R06.13", fmt.Sprintf("_panic/closure#%d/panics-with-the-value-itself#%d", k+1, n), ic.pos(c.Pos()), "the panic carries the Go value, not its reflect.Value",
 				"the generator of the panic builtin calls panic("+types.ExprString(c.Args[0])+") with a reflect.Value: recover() then returns a reflect.Value (r.(string), r.(error) and switch r.(type) fail, Panic.Value reported by Eval is a reflect.Value) that still designates the variable the operand was read from (a deferred x = 2 changes the value of an earlier panic(x))")
